@@ -6,7 +6,7 @@ from sa.loader import AnalysisError, norm, walk_local
 from sa.shapes import consumption, has_unknown, flat, Shaper
 from sa.cfg import cfg_of
 from sa.spec import avro_wire as spec
-from .common import analysis, tokens, names_in, cmp_texts
+from .common import analysis, tokens, names_in, cmp_texts, value_sources
 from .c05 import generators, gen_shape, block_loop, block_writer_shape, block_reader_shape, compress_exprs, raw_var_sources, _enclosing
 
 PROP = "C04"
@@ -88,8 +88,8 @@ def run(ctx):
                     ctx.holds("C04.R1", inst + " [input: sized read]", f.where(n))
                 elif meth == "tell" and f.id == generators(a)["blocks"][0].id:
                     ctx.holds("C04.R1", inst + " [block reader reports offsets; not claimed sequential]", f.where(n))
-                elif meth == "close" and f.name == "is_avro":
-                    ctx.holds("C04.R1", inst + " [is_avro closes the file it opened]", f.where(n))
+                elif meth == "close" and isinstance(n.func.value, ast.Name) and (lambda srcs: any(k == "expr" and isinstance(v, ast.Call) and norm(v.func) in ("open", "io.open") for k, v in srcs))(value_sources(a, f, n.func.value)):
+                    ctx.holds("C04.R1", inst + " [closes the file this function opened itself (when it did)]", f.where(n))
                 else:
                     ctx.violation("C04.R1", inst, f.where(n), f"{f.qualname}: {norm(n)}", "the container reader must pull bytes only through sized read() calls on its input (pipes and sockets): this call needs a seekable/peekable stream or reads without a size")
                 continue
